@@ -95,6 +95,9 @@ func main() {
 		if _, err := os.Stat(filepath.Join(*repo, dir)); err != nil {
 			return nil // not a repo package (shared helper module etc.)
 		}
+		if !harnessCondition(path) {
+			return nil
+		}
 		replace[filepath.Join(*repo, dir, "zz_verif_"+base)] = path
 		st.HarnessFiles++
 		return nil
@@ -527,4 +530,40 @@ func rewriteSelect(s *ast.SelectStmt, site mapSite, label string) ast.Stmt {
 	}
 	out = append(out, final)
 	return &ast.BlockStmt{List: out}
+}
+
+// harnessCondition evaluates an optional first-line directive of a harness file:
+//
+//	//verif:if-source <repo-relative file> contains <literal text>
+//	//verif:if-not-source <repo-relative file> contains <literal text>
+//
+// so that a harness file which touches package internals (e.g. to reset a
+// process-wide cache) is replaced by its fallback twin when a change to the
+// repository removed those internals, instead of breaking the build.
+func harnessCondition(path string) bool {
+	b, err := os.ReadFile(path)
+	if err != nil {
+		return true
+	}
+	line := string(b)
+	if i := strings.IndexByte(line, '\n'); i >= 0 {
+		line = line[:i]
+	}
+	neg := false
+	switch {
+	case strings.HasPrefix(line, "//verif:if-source "):
+		line = strings.TrimPrefix(line, "//verif:if-source ")
+	case strings.HasPrefix(line, "//verif:if-not-source "):
+		line = strings.TrimPrefix(line, "//verif:if-not-source ")
+		neg = true
+	default:
+		return true
+	}
+	parts := strings.SplitN(line, " contains ", 2)
+	if len(parts) != 2 {
+		return true
+	}
+	src, err := os.ReadFile(filepath.Join(*repo, strings.TrimSpace(parts[0])))
+	has := err == nil && strings.Contains(string(src), parts[1])
+	return has != neg
 }
